@@ -16,6 +16,7 @@
 #pragma once
 
 #include <unifex/bind_back.hpp>
+#include <unifex/continuations.hpp>
 #include <unifex/get_allocator.hpp>
 #include <unifex/receiver_concepts.hpp>
 #include <unifex/sender_concepts.hpp>
